@@ -139,6 +139,8 @@ def make_alignments(kinds, seq, variants):
         if spec.get("bx"):
             a["tags"].append(("BX", spec["bx"], "Z"))
         a["tags"].append(("zz", f"keep{i}", "Z"))
+        # tags of other types, which a rewrite of the tag list could silently re-type
+        a["tags"] += [("tp", "P", "A"), ("xh", "1AE3", "H"), ("xc", 7, "C"), ("xf", 0.5, "f")]
         a["flag"] = flag
         m["start"] = start
         alns.append(a)
